@@ -20,7 +20,8 @@ LEVEL = "exploration"
 BUDGET = {"quick": 40000, "thorough": 500000}
 RULE = (
     "each run draws a streaming tool (zip map filter filterfalse enumerate accumulate batched chain compress "
-    "dropwhile takewhile islice pairwise starmap zip_longest merge tee groupby chain.from_iterable) or a single-pass aggregation (all any sum "
+    "dropwhile takewhile islice pairwise starmap zip_longest merge tee (also a tee of a tee child) groupby chain.from_iterable "
+    "any_iter / await_each over plain or awaitable items) or a single-pass aggregation (all any sum "
     "min max reduce nlargest nsmallest), 1..3 streams of 50..6000 fresh items (async generator or class-based "
     "iterator, suspending every k-th pull), window parameters, and for tee a seeded pattern of child progress and "
     "early closes. Oracle at every consumer step / source pull: live weakrefs among delivered items <= 4*sources + "
@@ -34,11 +35,11 @@ ASSUMPTIONS = [
     "the constant 4 per source is deliberately generous (current item, previous item, tuple under construction, one in flight)",
     "cycle, sorted, the collection builders and lagging tee children are exempt as documented",
 ]
-PROBES = ("tee_child_failed_and_abandoned", "lazy_sequence_source", "len>=800", "tee_lagging_child_closed", "aggregation", "multi_source", "window_tool")
+PROBES = ("tee_of_tee_child", "awaitable_items", "tee_child_failed_and_abandoned", "lazy_sequence_source", "len>=800", "tee_lagging_child_closed", "aggregation", "multi_source", "window_tool")
 
 TOOLS = ("zip", "map", "filter", "filterfalse", "enumerate", "accumulate", "batched", "chain", "compress",
          "dropwhile", "takewhile", "islice", "pairwise", "starmap", "zip_longest", "merge", "tee", "groupby", "chain_from_iterable",
-         "all", "any", "sum", "min", "max", "reduce", "nlargest", "nsmallest")
+         "any_iter", "await_each", "all", "any", "sum", "min", "max", "reduce", "nlargest", "nsmallest")
 AGGS = ("all", "any", "sum", "min", "max", "reduce", "nlargest", "nsmallest")
 
 
@@ -172,6 +173,8 @@ def gen(ch):
     sc["every"] = (0, 1, 7, 50)[ch.draw(4)]
     sc["nsrc"] = 1
     t = sc["tool"]
+    if t == "await_each":
+        sc["flavour"] = 2  # takes a synchronous iterable of awaitables
     if t in ("zip", "map", "zip_longest", "merge", "chain"):
         sc["nsrc"] = ch.between(1, 3)
     if t == "compress":
@@ -184,9 +187,13 @@ def gen(ch):
         sc["transient_at"] = ch.draw(sc["length"]) if ch.chance(1, 4) else None
         sc["children"] = ch.between(2, 4)
         sc["lead"] = ch.between(1, 30)
-        sc["close_at"] = [ch.draw(sc["length"]) if ch.chance(1, 3) else None for _ in range(sc["children"])]
+        # a tee of a tee child: the source is first split in 1..2, the first of those is split again;
+        # all leaves (the inner children and the remaining outer ones) are consumers
+        sc["outer"] = ch.between(1, 2) if ch.chance(1, 4) else 0
+        total = sc["children"] + max(0, sc["outer"] - 1)
+        sc["close_at"] = [ch.draw(sc["length"]) if ch.chance(1, 3) else None for _ in range(total)]
         sc["close_at"][0] = None
-        sc["pattern"] = [ch.draw(sc["children"]) for _ in range(16)]
+        sc["pattern"] = [ch.draw(total) for _ in range(16)]
     return sc
 
 
@@ -224,6 +231,20 @@ def execute(st, ctx):
     else:
         keyfn = lambda i: i % 5  # noqa: E731
     wrap = (lambda item: (item, item)) if tool == "starmap" else None
+    if tool in ("any_iter", "await_each") and (sc["n"] % 2 or tool == "await_each"):
+        # the stream's items are awaitables (resolving to a fresh item each): data to be resolved and let go
+        class Promise:
+            __slots__ = ("item", "__weakref__")
+
+            def __init__(self, item):
+                self.item = item
+
+            def __await__(self):
+                if sc["n"] % 3 == 0:
+                    yield from sim.suspend(PAUSE, None, "promise").__await__()
+                return self.item
+
+        wrap = Promise
     streams = []
     all_refs = []
     transient = sc.get("transient_at") if (tool == "tee" and sc["flavour"] == 1) else None
@@ -271,10 +292,16 @@ def execute(st, ctx):
             res["end"] = "value"
             return
         if tool == "tee":
-            handle = L.tee(streams[0], sc["children"])
-            children = list(handle)
-            counts = [0] * sc["children"]
-            live = [True] * sc["children"]
+            if sc.get("outer"):
+                outer_handle = L.tee(streams[0], sc["outer"])
+                handle = L.tee(outer_handle[0], sc["children"])
+                children = list(handle) + list(outer_handle)[1:]
+                out.probes["tee_of_tee_child"] = 1
+            else:
+                handle = L.tee(streams[0], sc["children"])
+                children = list(handle)
+            counts = [0] * len(children)
+            live = [True] * len(children)
             k = 0
             while any(live):
                 c = sc["pattern"][k % 16]
@@ -389,6 +416,10 @@ def execute(st, ctx):
             it = L.starmap(lambda a, b: 0, S[0])
         elif tool == "zip_longest":
             it = L.zip_longest(*S)
+        elif tool == "any_iter":
+            it = L.any_iter(S[0])
+        elif tool == "await_each":
+            it = L.await_each(S[0])
         else:
             it = L.merge(*S)
         del S
@@ -431,6 +462,8 @@ def execute(st, ctx):
         out.probes["multi_source"] = 1
     if window:
         out.probes["window_tool"] = 1
+    if tool in ("any_iter", "await_each") and wrap is not None:
+        out.probes["awaitable_items"] = 1
     out.nontrivial = cnt.delivered >= 50
     out.shape = tuple(sorted((k, repr(v)) for k, v in sc.items()))
     if ctx.want_sample:
